@@ -632,6 +632,22 @@ Section ReplayProofs.
     rewrite A. auto.
   Qed.
 
+  (* failed calls and no-op writes, together *)
+  Theorem failed_and_noop_log_nothing :
+    (forall ds c ds' e,
+       single_write c -> ~ projected_in_session ds c -> step ds c = (ds', RErr e) ->
+       events (ds_cat ds') = events (ds_cat ds) /\ forall sid, routed ds' sid = routed ds sid) /\
+    (forall c g h q s u sk li up afs now0 c' g' tr,
+       txn_update matchf applyf extractf c g h q s u sk li up afs now0 = (c', g', inl tr) ->
+       t_modified tr = [] -> t_upserted tr = None -> c' = c) /\
+    (forall c g h q s sk li c' g' tr,
+       txn_delete matchf c g h q s sk li = (c', g', inl tr) -> t_matched tr = [] -> c' = c).
+  Proof.
+    split; [exact failed_call_logs_nothing|]. split.
+    - intros c g h q s u sk li up afs now0 c' g' tr. apply update_noop_logs_nothing.
+    - intros c g h q s sk li c' g' tr. apply delete_noop_logs_nothing.
+  Qed.
+
   (* abort / end-session: the committed log is untouched, the transaction
      (with the events it had recorded) is gone *)
   Theorem aborted_transaction_logs_nothing ds sid ds' r :
@@ -667,4 +683,5 @@ Print Assumptions run_replay.
 Print Assumptions run_replay_no_trim.
 Print Assumptions event_ids_strictly_increasing.
 Print Assumptions failed_call_logs_nothing.
+Print Assumptions failed_and_noop_log_nothing.
 Print Assumptions aborted_transaction_logs_nothing.
